@@ -182,6 +182,20 @@ pub fn content_text(c: u8, n: usize) -> Vec<u8> {
     if c == 3 {
         let pat = b"Hello, World! THE quick brown FOX 0123456789 [jumps]{OVER}~lazy^dog@Z`a\t\n";
         (0..n).map(|i| pat[i % pat.len()]).collect()
+    } else if c == 4 {
+        // Latin Extended-A, U+0100..U+017F: two-byte chars whose code point truncated to u8 aliases ASCII
+        let mut v = Vec::with_capacity(n);
+        if n % 2 == 1 {
+            v.push(b'a');
+        }
+        let mut i = 0usize;
+        while v.len() < n {
+            let x = (i * 5 + 0x20) % 128;
+            v.push(if x < 64 { 0xC4 } else { 0xC5 });
+            v.push(0x80 + (x % 64) as u8);
+            i += 1;
+        }
+        v
     } else {
         content_str(c, n)
     }
@@ -191,7 +205,7 @@ pub fn xform_spec(name: &str, f: XformFn, oracle: XformFn, class: XformClass, wh
     let gen = move |tier: Tier, out: &mut dyn FnMut(Case) -> bool| {
         for n in all_lens() {
             for a in one_aligns(tier) {
-                for c in 0..4u8 {
+                for c in 0..5u8 {
                     if !out(Case { n, a, c, ..Default::default() }) {
                         return;
                     }
@@ -221,7 +235,7 @@ pub fn xform_spec(name: &str, f: XformFn, oracle: XformFn, class: XformClass, wh
     };
     Spec {
         name: name.to_string(),
-        space: format!("{what}: every input length 0..=260 x alignment {{quick: 16; thorough: 0..63}} + guard-ended x valid-UTF-8 contents {{ASCII ascending, two-byte chars, embedded NUL, mixed-case ASCII text}}; oracle: the scalar fallback definition in the same function"),
+        space: format!("{what}: every input length 0..=260 x alignment {{quick: 16; thorough: 0..63}} + guard-ended x valid-UTF-8 contents {{ASCII ascending, two-byte chars U+00E0.., embedded NUL, mixed-case ASCII text, two-byte chars U+0100..U+017F}}; oracle: the scalar fallback definition in the same function"),
         gen: Box::new(gen),
         run: Box::new(run),
         isolate: false,
